@@ -390,3 +390,15 @@ pub fn fixture_prefix(path: &str, n: usize) -> Option<Beatmap> {
     map.hit_sounds.truncate(n);
     Some(map)
 }
+
+/// A window of `len` consecutive hit objects of a fixture map starting at object `start` (timing and difficulty kept).
+pub fn fixture_window(path: &str, start: usize, len: usize) -> Option<Beatmap> {
+    let mut map = Beatmap::from_path(path).ok()?;
+    let end = (start + len).min(map.hit_objects.len());
+    if start >= end {
+        return None;
+    }
+    map.hit_objects = map.hit_objects[start..end].to_vec();
+    map.hit_sounds = map.hit_sounds[start..end].to_vec();
+    Some(map)
+}
